@@ -381,6 +381,8 @@ def build_request(ex, meta):
         r["slice_opt_return"] = True
     if o.get("slice_wrap_return") == "1":
         r["slice_wrap_return"] = True
+    if o.get("option_combinators") == "1":
+        r["option_combinators"] = True
     if o.get("opaque_into") == "1":
         r["opaque_into"] = True
     if "slice_group" in o:
